@@ -29,7 +29,10 @@ type jCall struct {
 	To      string   `json:"to,omitempty"`
 	Value   string   `json:"value,omitempty"`
 	Signers []string `json:"signers"`
-	Caller  string   `json:"caller,omitempty"` // calling contract, if any
+	// Stack: the contract contexts below the token contract, entry first (e.g. entry script,
+	// vault, plugin): the last one is the immediate caller, the only one CheckWitness accepts.
+	Stack   []string `json:"stack,omitempty"`
+	Caller  string   `json:"caller,omitempty"` // legacy spelling of a one-element stack
 	Time    uint32   `json:"time"`
 	Height  uint32   `json:"height"`
 	PreExec bool     `json:"preexec,omitempty"`
@@ -356,13 +359,74 @@ func (g *sgen) next(d *dump, now *uint32, v2on bool) jCall {
 		k.Value = g.callAmount(k.Tok, k.V2, d.bal(k.Tok, from), d.allow(k.Tok, from, sender)).String()
 		k.Signers = g.signers(sender)
 	}
-	switch g.c.Intn(14) {
+	// call stack below the token contract: none (the test-style direct call), an entry script,
+	// contract -> contract chains 2-4 deep.  The debited account is often put somewhere in the
+	// chain: as the immediate caller (authorizes) or deeper (an indirect caller: must not).
+	debited := k.From
+	if k.Kind == "transfer" && len(k.States) > 0 {
+		debited = k.States[g.c.Intn(len(k.States))].From
+	}
+	if k.Kind == "transferFrom" && g.c.Intn(2) == 0 {
+		debited = k.Sender
+	}
+	other := func() string {
+		switch g.c.Intn(4) {
+		case 0:
+			return hexOf(g.pick())
+		case 1:
+			return hexOf(ontC)
+		default:
+			return []string{"00000000000000000000000000000000000000aa", "00000000000000000000000000000000000000ab", "00000000000000000000000000000000000000ac"}[g.c.Intn(3)]
+		}
+	}
+	switch g.c.Intn(12) {
 	case 0:
-		k.Caller = hexOf(g.pick()) // called from a contract whose address is one of the accounts
+		k.Stack = []string{other()}
 	case 1:
-		k.Caller = hexOf(ontC)
-	case 2:
-		k.Caller = "00000000000000000000000000000000000000aa"
+		k.Stack = []string{other(), other()}
+	case 2, 3: // entry -> debited (immediate caller)
+		k.Stack = []string{other(), debited}
+	case 4, 5, 6: // entry -> debited (vault) -> plugin: the vault is only an indirect caller
+		k.Stack = []string{other(), debited, other()}
+		if debited != "" {
+			k.Signers = dropSigner(k.Signers, debited)
+		}
+	case 7: // depth 4, vault at the bottom or second
+		k.Stack = []string{debited, other(), other(), other()}
+		if g.c.Intn(2) == 0 {
+			k.Stack = []string{other(), debited, other(), other()}
+		}
+		if debited != "" && g.c.Intn(3) != 0 {
+			k.Signers = dropSigner(k.Signers, debited)
+		}
+	case 8:
+		k.Stack = []string{debited}
+	}
+	for i, x := range k.Stack {
+		if x == "" {
+			k.Stack[i] = "00000000000000000000000000000000000000aa"
+		}
 	}
 	return k
+}
+
+func dropSigner(sg []string, a string) []string {
+	var out []string
+	for _, x := range sg {
+		if x != a {
+			out = append(out, x)
+		}
+	}
+	return out
+}
+
+// callStack: the contexts below the token contract for this call.
+func (k *jCall) callStack() []string {
+	if len(k.Stack) > 0 {
+		return k.Stack
+	}
+	if k.Caller != "" {
+		return []string{k.Caller}
+	}
+	return nil
 }
